@@ -30,8 +30,8 @@ CASES = [
       "                    psi1 = -1j*pref*numpy.dot(HH,psi1)\n                    psi2 = psi2 + psi1\n\n                psi1 = psi2    \n                \n            pr.data[indx,:] = psi2                        \n            indx += 1       \n            \n        if self.ham.has_rwa:\n            pr.is_in_rwa = True\n            \n        return pr\n\n    def _propagate_short_exp_nonlin",
       "                    psi1 = -1j*pref*numpy.dot(HH,psi1)\n                    psi2 = psi1\n\n                psi1 = psi2    \n                \n            pr.data[indx,:] = psi2                        \n            indx += 1       \n            \n        if self.ham.has_rwa:\n            pr.is_in_rwa = True\n            \n        return pr\n\n    def _propagate_short_exp_nonlin"),
     m("slot index advanced twice", "C02-A", P,
-      "            pr.data[indx,:,:] = rho2 \n            indx += 1             \n            if indxR < cutoff_indx-1:",
-      "            pr.data[indx,:,:] = rho2 \n            indx += 2             \n            if indxR < cutoff_indx-1:"),
+      "                indxR = min(indxR + stride, cutoff_indx - 1)\n                \n            pr.data[indx,:,:] = rho2 \n            indx += 1             \n",
+      "                indxR = min(indxR + stride, cutoff_indx - 1)\n                \n            pr.data[indx,:,:] = rho2 \n            indx += 2             \n"),
     m("TD routine uses the unrefined step", "C02-A", P,
       "        IR = 0.0 \n        dt = sysstep*stride\n        for ii in self.TimeAxis.data[1:self.Nt]:\n            \n            for jj in range(self.Nref):\n                \n                \n                RR = self.RelaxationTensor.data[indxR,:,:,:,:]\n                if self.has_Iterm:\n                    IR = self.RelaxationTensor.Iterm[indxR,:,:]                           \n                \n",
       "        IR = 0.0 \n        dt = sysstep\n        for ii in self.TimeAxis.data[1:self.Nt]:\n            \n            for jj in range(self.Nref):\n                \n                \n                RR = self.RelaxationTensor.data[indxR,:,:,:,:]\n                if self.has_Iterm:\n                    IR = self.RelaxationTensor.Iterm[indxR,:,:]                           \n                \n"),
@@ -179,4 +179,9 @@ CASES += [
         (HAMF, "        S1 = numpy.conj(self.SS.T)", "        S1 = self.SS.T", 1)]},
     {"name": "diagonalize transforms the remainder with the bare transpose", "kind": "mutant", "rule": "C02-L", "edits": [
         (HAMF, "                self.JR = numpy.dot(numpy.conj(SS.T),numpy.dot(self.JR,SS))", "                self.JR = numpy.dot(SS.T,numpy.dot(self.JR,SS))", 1)]},
+]
+
+CASES += [
+    {"name": "dephasing type misspelt in the conversion (the repaired defect)", "kind": "mutant", "rule": "C02-N", "edits": [
+        ("quantarhei/qm/liouvillespace/puredephasing.py", "            elif dtype == \"Gaussian\" and self.dtype == \"Lorentzian\":", "            elif dtype == \"Gaussian\" and self.dtype == \"Lorenzian\":", 1)]},
 ]
